@@ -198,6 +198,9 @@ impl Eval for Cmp {
 
 fn cmp_dispatch<Cmp: Fn(&Value, &Value) -> bool>(cmp: &Cmp, lhs: &Value, rhs: &Value) -> bool {
     match lhs {
+        // A path that does not resolve to a value matches no comparison, `!=` included.
+        Value::Null => false,
+
         Value::List(list) => {
             if !rhs.is_list() {
                 list.iter().any(|el| cmp_dispatch(cmp, el, rhs))
